@@ -261,12 +261,73 @@ type solveJob struct {
 	heap0 map[string]Term
 }
 
-// dischargeAll runs all obligations through the solvers in parallel.
+// dischargeAll runs all obligations through the solvers: phase A, the fast solver alone on every obligation (all cores); phase B, the
+// three solvers raced on what is left, with limited parallelism so that each solver process has a core to itself.
 func dischargeAll(jobs []solveJob, workDir string, quickS, fullS int, all bool, workers int) {
 	os.MkdirAll(workDir, 0o755)
+	files := make([]string, len(jobs))
+	var pending []int
+	// phase A
+	runPool(len(jobs), workers, func(i int) {
+		j := jobs[i]
+		o := j.o
+		if o.Goal.S == "true" {
+			o.Status, o.Backend = "proved", "trivial"
+			return
+		}
+		extra := ""
+		if j.vc.excused != nil {
+			if ex := j.vc.excuseFor(o.Name); ex != nil {
+				extra = "(not " + ex.term.S + ")"
+			}
+		}
+		q := j.vc.buildQuery(o, j.heap0, extra, true)
+		o.Bytes = len(q)
+		if len(q) > 256*1024 {
+			o.Status = "error"
+			o.SolverOut = fmt.Sprintf("query exceeds size cap: %d bytes", len(q))
+			return
+		}
+		file := filepath.Join(workDir, fmt.Sprintf("q%05d.smt2", i))
+		os.WriteFile(file, []byte(q), 0o644)
+		files[i] = file
+		if all {
+			return
+		}
+		r := runSolver(context.Background(), solvers[0], file, quickS)
+		recordResult(o, r, []solveResult{r}, fullS)
+		if o.Status == "proved" {
+			os.Remove(file)
+		}
+	})
+	for i, j := range jobs {
+		if files[i] != "" && (all || j.o.Status == "unknown" || j.o.Status == "") {
+			pending = append(pending, i)
+		}
+	}
+	// phase B
+	par := workers / 3
+	if par < 1 {
+		par = 1
+	}
+	runPool(len(pending), par, func(k int) {
+		i := pending[k]
+		o := jobs[i].o
+		r, tried := raceAll(files[i], fullS, all)
+		recordResult(o, r, tried, fullS)
+		if o.Status == "failed" {
+			o.Model = getModel(files[i], r.backend)
+		}
+		if o.Status == "proved" {
+			os.Remove(files[i])
+		}
+	})
+}
+
+func runPool(n, workers int, f func(i int)) {
 	var wg sync.WaitGroup
-	ch := make(chan int, len(jobs))
-	for i := range jobs {
+	ch := make(chan int, n)
+	for i := 0; i < n; i++ {
 		ch <- i
 	}
 	close(ch)
@@ -275,57 +336,70 @@ func dischargeAll(jobs []solveJob, workDir string, quickS, fullS int, all bool, 
 		go func() {
 			defer wg.Done()
 			for i := range ch {
-				j := jobs[i]
-				o := j.o
-				if o.Goal.S == "true" {
-					o.Status, o.Backend = "proved", "trivial"
-					continue
-				}
-				extra := ""
-				if j.vc.excused != nil {
-					if ex := j.vc.excuseFor(o.Name); ex != nil {
-						extra = "(not " + ex.term.S + ")"
-					}
-				}
-				q := j.vc.buildQuery(o, j.heap0, extra, true)
-				o.Bytes = len(q)
-				if len(q) > 256*1024 {
-					o.Status = "error"
-					o.SolverOut = fmt.Sprintf("query exceeds size cap: %d bytes", len(q))
-					continue
-				}
-				file := filepath.Join(workDir, fmt.Sprintf("q%05d.smt2", i))
-				os.WriteFile(file, []byte(q), 0o644)
-				r, tried := solveQuery(file, quickS, fullS, all)
-				o.Ms = r.ms
-				o.Backend = r.backend
-				switch r.status {
-				case "unsat":
-					o.Status = "proved"
-					if r.ms > int64(fullS)*500 {
-						o.Unstable = true
-					}
-				case "sat":
-					o.Status = "failed"
-					o.Model = getModel(file, r.backend)
-				case "error":
-					o.Status = "error"
-					o.SolverOut = r.out
-				default:
-					o.Status = "unknown"
-					var outs []string
-					for _, t := range tried {
-						outs = append(outs, t.backend+": "+strings.TrimSpace(firstLines(t.out, 3)))
-					}
-					o.SolverOut = strings.Join(outs, " | ")
-				}
-				if o.Status == "proved" {
-					os.Remove(file)
-				}
+				f(i)
 			}
 		}()
 	}
 	wg.Wait()
+}
+
+func recordResult(o *Obligation, r solveResult, tried []solveResult, fullS int) {
+	o.Ms += r.ms
+	o.Backend = r.backend
+	switch r.status {
+	case "unsat":
+		o.Status = "proved"
+		o.SolverOut = ""
+		if r.ms > int64(fullS)*500 {
+			o.Unstable = true
+		}
+	case "sat":
+		o.Status = "failed"
+	case "error":
+		o.Status = "error"
+		o.SolverOut = r.out
+	default:
+		o.Status = "unknown"
+		var outs []string
+		for _, t := range tried {
+			outs = append(outs, t.backend+": "+strings.TrimSpace(firstLines(t.out, 3)))
+		}
+		o.SolverOut = strings.Join(outs, " | ")
+	}
+}
+
+// raceAll: the three solvers concurrently; first definite answer wins (unless all answers are wanted).
+func raceAll(file string, fullS int, all bool) (solveResult, []solveResult) {
+	ctx, cancel := context.WithCancel(context.Background())
+	defer cancel()
+	ch := make(chan solveResult, len(solvers))
+	for _, s := range solvers {
+		go func(s solverSpec) { ch <- runSolver(ctx, s, file, fullS) }(s)
+	}
+	var tried []solveResult
+	best := solveResult{status: "unknown"}
+	for range solvers {
+		r := <-ch
+		tried = append(tried, r)
+		if r.status == "unsat" || r.status == "sat" {
+			if !all {
+				return r, tried
+			}
+			if best.status != "unsat" && best.status != "sat" {
+				best = r
+			}
+		}
+	}
+	if best.backend == "" {
+		best = tried[len(tried)-1]
+		best.status = "unknown"
+		for _, r := range tried {
+			if r.status == "error" {
+				best = r
+			}
+		}
+	}
+	return best, tried
 }
 
 func firstLines(s string, n int) string {
